@@ -61,6 +61,7 @@ def run_config(pid, cfg, tier, seed, timeout_ms, max_paths):
     """worker: explore one configuration symbolically, replay failures concretely"""
     _maybe_block_torch(pid)
     mod = importlib.import_module(f"vcheck.{pid}")
+    _install_reset_hook()
     env = SymEnv(timeout_ms=timeout_ms, seed=seed, max_paths=max_paths)
     trace.start()
     t0 = time.time()
@@ -112,6 +113,7 @@ def run_config(pid, cfg, tier, seed, timeout_ms, max_paths):
     res['canaries'] = env.canary_seen
     res['functions'] = trace.functions()
     res['notes'] = env.notes
+    res['shared_mutable_defaults'] = getattr(core.PATH_RESET_HOOKS[0], 'functions', []) if core.PATH_RESET_HOOKS else []
     res['claim_ms'] = {k: round(v, 1) for k, v in sorted(env.claim_ms.items(), key=lambda kv: -kv[1])[:6]}
     res['wall_s'] = round(time.time() - t0, 3)
     return res
@@ -126,9 +128,18 @@ def load_known(pid):
     return [e for e in data.get('findings', []) if e.get('property') == pid]
 
 
+def _install_reset_hook():
+    from symx import stubs
+    if not core.PATH_RESET_HOOKS:
+        hook = stubs.snapshot_mutable_defaults()
+        core.PATH_RESET_HOOKS.append(hook)
+    return core.PATH_RESET_HOOKS[0]
+
+
 def replay_file(pid, path):
     _maybe_block_torch(pid)
     mod = importlib.import_module(f"vcheck.{pid}")
+    _install_reset_hook()
     with open(path) as fh:
         rp = json.load(fh)
     cfg = rp['config']
